@@ -157,7 +157,8 @@ def gen_history(rng, maxops=12):
             ops.append(["reborrow", rng.choice([-1, h])])
             nh += 1
         elif r < 0.70:
-            ops.append(["scope", h, rng.randint(0, 2)])
+            # (how the block is left: falling through, or by an exception / a BaseException raised in it)
+            ops.append(["scope", h, rng.randint(0, 2), rng.choice(["fall", "fall", "raise", "raise_base"])])
             nh += 1
         else:
             ops.append(["tool", rng.choice(TOOL_NAMES), h, rng.randint(0, 4), rng.choice(["close", "close", "exhaust", "abandon"])])
@@ -359,13 +360,22 @@ def run_history(case, stats, scoped=None):
                 h = op[1] if op[1] < len(handles) else 0
                 if state[h] != "open":
                     continue
-                async with A.scoped_iter(handles[h]) as sh:
-                    for _ in range(op[2]):
-                        got = await anext_of(sh)
-                        want = _uid(next(model, STOP))
-                        if got != want:
-                            fail("borrow/handle-sequence", f"op {n} {op}: scoped handle gave {got}, shared iterator gives {want}")
-                            return
+                how = op[3] if len(op) > 3 else "fall"
+                left_by = (Exception if how == "raise" else BaseException)("the block fails") if how != "fall" else None
+                try:
+                    async with A.scoped_iter(handles[h]) as sh:
+                        for _ in range(op[2]):
+                            got = await anext_of(sh)
+                            want = _uid(next(model, STOP))
+                            if got != want:
+                                fail("borrow/handle-sequence", f"op {n} {op}: scoped handle gave {got}, shared iterator gives {want}")
+                                return
+                        if left_by is not None:
+                            counters["scopes_left_by_an_exception"] += 1
+                            raise left_by
+                except BaseException as exc:  # noqa: BLE001
+                    if exc is not left_by:
+                        raise
                 state[h] = "closed"
                 self_closed.add(h)
                 handles.append(sh)
